@@ -2,6 +2,7 @@ package main
 
 import (
 	"fmt"
+	"os"
 	"go/constant"
 	"go/token"
 	"go/types"
@@ -627,6 +628,9 @@ func (x *Exec) runBlock(st *State, fr *frame, b *ssa.BasicBlock, from int) []out
 	}
 	for i := from; i < len(b.Instrs); i++ {
 		in := b.Instrs[i]
+		if _, isDbg := in.(*ssa.DebugRef); !isDbg {
+			x.lineHooks(st, fr, in)
+		}
 		switch in := in.(type) {
 		case *ssa.DebugRef:
 			continue
@@ -743,7 +747,13 @@ func (x *Exec) step(st *State, fr *frame, in ssa.Instruction) bool {
 			return true
 		}
 		cell := st.newCell(et, Val{T: e.zero(et), Ty: et})
-		fr.regs[in] = Val{Ty: in.Type(), Addr: &Addr{Kind: ALocal, Cell: cell, RootTy: et}}
+		a := &Addr{Kind: ALocal, Cell: cell, RootTy: et}
+		fr.regs[in] = Val{Ty: in.Type(), Addr: a}
+		if in.Heap && isStruct(et) && len(e.zeroGhosts()) > 0 {
+			// objects that escape are created in the heap right away, so that "new object" facts (zero-initialised
+			// ghost ledgers) are stated at the allocation and not where the address first escapes
+			e.encodeAddr(st, a)
+		}
 	case *ssa.Store:
 		a := x.addrOf(st, fr, x.val(st, fr, in.Addr), in.Pos(), "store")
 		st.store(a, x.val(st, fr, in.Val))
@@ -1294,4 +1304,107 @@ func (e *Engine) ifaceID(it *types.Interface) int {
 	n := len(e.ifaceIDs) + 1
 	e.ifaceIDs[k] = n
 	return n
+}
+
+// lineHooks fires the contract's `at "<text>"` hooks: assertions/assumptions before the first instruction of a matching
+// source line, ghost assignments after its last instruction on this path.
+func (x *Exec) lineHooks(st *State, fr *frame, in ssa.Instruction) {
+	ct := x.e.contracts[x.e.shortName(fr.fn)]
+	if ct == nil || len(ct.Ats) == 0 {
+		return
+	}
+	pos := in.Pos()
+	if !pos.IsValid() {
+		switch in.(type) {
+		case *ssa.Jump, *ssa.If, *ssa.Return, *ssa.RunDefers:
+			// control transfer without position ends the current line
+			x.fireAfter(st, fr, ct)
+			fr.curLine = ""
+		}
+		return
+	}
+	p := x.e.fset.Position(pos)
+	key := fmt.Sprintf("%s:%d", p.Filename, p.Line)
+	if key == fr.curLine {
+		return
+	}
+	x.fireAfter(st, fr, ct)
+	fr.curLine = key
+	text := x.e.sourceLine(p.Filename, p.Line)
+	fr.curText = text
+	for i, h := range ct.Ats {
+		if h.Kind == "set" || !strings.Contains(text, h.Pattern) {
+			continue
+		}
+		x.e.hookHits[ct.Name+"|"+h.Src] = true
+		ctx := x.localCtx(st, fr, nil)
+		t, err := x.evalClause(st, ctx, h.Clause)
+		if err != nil {
+			x.errs = append(x.errs, err.Error())
+			t = "false"
+		}
+		if h.Kind == "assert" {
+			x.oblige(st, fr.fn, "at", clauseName("at", i, h.Clause), t)
+		}
+		st.assume(t)
+	}
+}
+
+func (x *Exec) fireAfter(st *State, fr *frame, ct *Contract) {
+	if fr.curLine == "" {
+		return
+	}
+	for _, h := range ct.Ats {
+		if h.Kind != "set" || !strings.Contains(fr.curText, h.Pattern) {
+			continue
+		}
+		x.e.hookHits[ct.Name+"|"+h.Src] = true
+		g := x.e.ghosts[h.Ghost]
+		if g == nil {
+			x.errs = append(x.errs, "at set: unknown ghost "+h.Ghost)
+			continue
+		}
+		func() {
+			defer func() {
+				if r := recover(); r != nil {
+					if se, ok := r.(specError); ok {
+						x.errs = append(x.errs, se.msg)
+						x.oblige(st, fr.fn, "contract-error", "at set "+h.Ghost, "false")
+						return
+					}
+					panic(r)
+				}
+			}()
+			ctx := x.localCtx(st, fr, nil)
+			ctx.what = h.Src
+			kv := ctx.eval(h.KeyX)
+			var key string
+			switch {
+			case isIntTy(kv.Ty):
+				key = kv.T
+			case kv.Addr != nil:
+				key = x.e.objKey(st, kv)
+			default:
+				key = refOf(st, kv)
+			}
+			vv := ctx.eval(h.ValX)
+			st.ghostWrite(g, key, st.term(vv))
+		}()
+	}
+	fr.curText = ""
+}
+
+func (e *Engine) sourceLine(file string, line int) string {
+	ls, ok := e.srcCache[file]
+	if !ok {
+		data, err := os.ReadFile(file)
+		if err == nil {
+			ls = strings.Split(string(data), "\n")
+		}
+		e.srcCache[file] = ls
+	}
+	if line-1 < len(ls) && line >= 1 {
+		return ls[line-1]
+	}
+	return ""
 }
